@@ -31,7 +31,7 @@ REPO_CURVES = [
 ]
 
 FAMILIES = ['noise', 'mono_dec', 'convex', 'concave', 'pwl_dyadic', 'pwl_rational',
-            'pwl_decimal', 'plateau', 'flat', 'outlier', 'repo', 'trace', 'steps']
+            'pwl_decimal', 'plateau', 'flat', 'outlier', 'repo', 'trace', 'steps', 'quant']
 
 
 @functools.lru_cache(maxsize=None)
@@ -196,6 +196,12 @@ def curves(draw, min_n=2, max_n=40, families=None, integer_x=False, y01=False, s
         y = [round(v, digits) for v in draw(st.lists(unit, min_size=n, max_size=n))]
         if draw(st.booleans()):
             y = sorted(y, reverse=True)
+    elif fam == 'quant':   # quantised monotone staircase: few integer levels, many ties
+        top = draw(st.sampled_from([2, 3, 6, 9]))
+        y = [float(v) for v in sorted(draw(st.lists(st.integers(0, top), min_size=n, max_size=n)), reverse=True)]
+        if y01:
+            m = max(y) or 1.0
+            y = [v / m for v in y]
     elif fam == 'flat':
         v = draw(st.sampled_from([0.0, 1.0, 0.5, 3.0]))
         y = [v] * n
